@@ -194,7 +194,9 @@ def r06_s(ctx):
     from . import c05
     ctx.include(c05.r05_11, 'R06.S')
     from . import c08
-    ctx.include(c08.r08_5, 'R06.S')  # a float keeps its value only if it is written by the writer of its own type
+    ctx.include(c08.r08_5, 'R06.S')
+    from . import c16
+    ctx.include(c16.r16_6, 'R06.S')   # raw-number text of a copied-out document lives in its arena, not in the caller's input: it is still there when the value is serialized  # a float keeps its value only if it is written by the writer of its own type
 
 
 RULES = [("R06.1", r06_1), ("R06.2", r06_2), ("R06.3", r06_3), ("R06.4", r06_4), ("R06.5", r06_5), ("R06.S", r06_s)]
